@@ -25,6 +25,7 @@ META = {
                   "max_size / overflow depth, every call in a child process; panics and aborts are outcomes.",
     "level_note": "the fuel bound of the engine model is partial (see Props/C09.v and evidence.assumptions); non-ground SLG search is exploration only",
     "design_ref": "DESIGN.md §4 C09",
+    "bins": ["engine", "hist"],
     "assumptions": [
         "engine theorems are about the propositional instantiation of SolverStuff (ground and-or graphs)",
         "termination of non-ground SLG / recursive search (subgoal abstraction, truncation) is not formalised: bounded-work runs only",
